@@ -144,8 +144,10 @@ def body_bytes(body):
         raw = (json.dumps(body["msgs"], ensure_ascii=False, indent=2) + "\n" if body.get("pretty") else dumps(body["msgs"])).encode()
     elif f in ("value", "object"):
         raw = dumps(body["v"]).encode()
-    elif f == "text":
+    elif f in ("text", "rawtext"):
         raw = body["text"].encode()
+    elif f == "odd":
+        raw = ("data: " + dumps(body["v"]) + "\n\n").encode() if body.get("sse") else dumps(body["v"]).encode()
     elif f == "sse":
         raw = sse_text(body).encode()
     else:
@@ -171,7 +173,7 @@ CT_HEADER = {"json": "application/json", "sse": "text/event-stream", "other": "t
 def model_behaviour(b):
     """the behaviour as the Lean driver takes it"""
     if "exc" in b:
-        return {"exc": "timeout" if b["exc"] == "asyncio_timeout" else "other"}
+        return {"exc": "timeout" if b["exc"] in ("asyncio_timeout", "py:TimeoutError") else "other"}
     raw = body_bytes(b["body"])
     try:
         raw.decode("utf-8")
@@ -224,6 +226,11 @@ def expect(b):
         cls = "json-not-message"
     elif f == "text":
         cls = "non-json"
+    elif f in ("rawtext", "odd"):
+        # a body whose reading is left to the code (does it parse? does the message class take it?): the property
+        # only fixes the number of terminals — exactly one when the body is a response to this request at all
+        return {"cls": None, "srv": [], "strict": False, "mangled": bool(body.get("own_terminal")), "free": True,
+                "tag": body.get("tag")}
     elif f in ("batch", "sse", "json") and not body_msgs(body):
         cls = "no-message-in-body"
     if cls is not None:
@@ -913,3 +920,241 @@ def hardening(rng, budget):
                 r["wait"] = rng.choice([0, 100000])
         out.append(tagged("close-outstanding", c))
     return out
+
+
+# ------------------------------------------------------------------------------- hardening sweep 2
+
+OPTION_SETS = [
+    {},
+    {"enable_streaming": False},
+    {"max_retries": 0},
+    {"max_retries": 1, "retry_delay": 0.0},
+    {"max_retries": 2, "enable_streaming": False},
+    {"max_retries": 3, "retry_delay": 0.5, "timeout": 0.25},
+    {"max_retries": 10, "user_agent": "ua/9 (x)"},
+    {"timeout": 0.001, "mcr": 1},
+    {"timeout": 3600.0, "retry_delay": 3600.0},
+    {"enable_streaming": False, "user_agent": "", "bearer": "tok"},
+    {"enable_streaming": False, "headers": {"Accept": "text/event-stream"}, "env_bearer": "e"},
+    {"max_retries": 1, "enable_streaming": False, "mcr": 2, "timeout": 1.0},
+]
+
+
+def decorate(cases, salt=0):
+    """cross the cases with the options of StreamableHTTPParameters and with DEBUG logging: case k gets
+    option set k mod |OPTION_SETS| (merged under an explicit cfg) and every fourth case runs with the
+    root logger at DEBUG.  Deterministic: part of the case."""
+    out = []
+    for k, c in enumerate(cases):
+        opt = OPTION_SETS[(k + salt) % len(OPTION_SETS)]
+        if opt:
+            c = dict(c)
+            c["cfg"] = {**opt, **(c.get("cfg") or {})}
+        if (k + salt) % 4 == 1:
+            c = dict(c)
+            c["debug"] = True
+        out.append(c)
+    return out
+
+
+PY_EXCS = ["TypeError", "ValueError", "KeyError", "IndexError", "AttributeError", "RuntimeError", "RecursionError", "OSError",
+           "Exception", "LookupError", "AssertionError", "NotImplementedError", "UnicodeDecodeError", "StopAsyncIteration",
+           "MemoryError", "TimeoutError", "ConnectionError", "ConnectionResetError", "BrokenPipeError", "EOFError"]
+
+
+def failure_behaviours():
+    """every failure kind: name -> function (rid, tag) -> behaviour"""
+    F = {}
+    for e in ("connect", "connect_timeout", "read_timeout", "protocol", "asyncio_timeout", "badstr"):
+        F["exc:" + e] = (lambda e: lambda r, t: {"exc": e})(e)
+    for e in PY_EXCS:
+        F["exc:py:" + e] = (lambda e: lambda r, t: {"exc": "py:" + e})(e)
+    F["404-json"] = lambda r, t: response_b(404, "json", body_for("json", content("error-null-id", r, t)))
+    F["500-text"] = lambda r, t: response_b(500, "other", {"form": "text", "text": "boom"})
+    F["503-empty"] = lambda r, t: response_b(503, "absent", {"form": "empty"})
+    F["200-empty-json"] = lambda r, t: response_b(200, "json", {"form": "empty"})
+    F["200-empty-sse"] = lambda r, t: response_b(200, "sse", {"form": "empty"})
+    F["200-nonjson"] = lambda r, t: response_b(200, "json", {"form": "text", "text": "<html>"})
+    F["202-text"] = lambda r, t: response_b(202, "other", {"form": "text", "text": "Accepted"})
+    F["200-truncated"] = lambda r, t: response_b(200, "json", dict(body_for("json", content("response", r, t)), cut=True))
+    F["200-value"] = lambda r, t: response_b(200, "json", {"form": "value", "v": 42})
+    F["200-sse-nomsg"] = lambda r, t: response_b(200, "sse", matrix_body("no-message", "sse", r, t))
+    F["200-sse-unterminated"] = lambda r, t: response_b(200, "sse", dict(sse_body(content("response", r, t)), cut=True))
+    F["200-nonutf8"] = lambda r, t: response_b(200, "json", dict(body_for("json", content("response", r, t)), bad="lead"))
+    return F
+
+
+def good_behaviours():
+    return [
+        lambda r, t: response_b(200, "json", body_for("json", content("response", r, t))),
+        lambda r, t: response_b(200, "sse", sse_body(content("notifs+response", r, t))),
+        lambda r, t: response_b(200, "sse", sse_body(content("response", r, t), name=None, dsp=False, tail="noeol"), "sess-R"),
+        lambda r, t: response_b(200, "json", body_for("json", content("notifs+response", r, t))),
+    ]
+
+
+def repeated_failures(quick=True):
+    """the SAME failure 2, 3, 4, 5 times in a row, then successes; with and without a success before;
+    and a well-formed answer that leaves something behind (an unterminated SSE body) before a good one"""
+    out = []
+    F, Gd = failure_behaviours(), good_behaviours()
+    n = 0
+    for name, f in F.items():
+        for rep in (2, 3, 4, 5):
+            n += 1
+            if quick and name.startswith("exc:py:") and rep not in (3, 4):
+                continue
+            word = ([Gd[n % 4]] if n % 2 else []) + [f] * rep + [Gd[(n + 1) % 4], Gd[(n + 2) % 4]]
+            reqs = []
+            for k, beh in enumerate(word):
+                rid = {"i": 500 + k} if (k + n) % 5 else ({"s": f"r{k}"} if k % 2 else None)
+                reqs.append(mkreq(rid, beh(rid, f"rf{n}-{k}")))
+            c = mkcase(reqs, [None, "sess-0"][n % 2])
+            c["hk"] = f"repeat/{name.split(':')[0] if name.startswith('exc') else 'status-or-body'}/x{rep}"
+            out.append(c)
+    return out
+
+
+FIRST_LINES = [
+    [{"c": " keep-alive"}], [{"c": ""}], [{"id": "1", "sp": True}], [{"id": "", "sp": False}], [{"retry": "3000", "sp": True}],
+    [{"retry": "10", "sp": False}, {"c": "x"}], [{"c": "data: not a field"}], [{"c": "event: nor this"}],
+]
+
+
+def sse_first_lines():
+    """every conformant way an SSE body may BEGIN: comment, `id:`, `retry:`, blank line(s), an event field, a data field,
+    a data-less typed event, LF and CRLF — as text/event-stream and unlabelled"""
+    out = []
+    n = 0
+    for eols in ([], [True] * 32):
+        for ct in ("sse", "sse", "other", "absent"):
+            for first in range(len(FIRST_LINES) + 4):
+                for bclass in ("response", "notifs+response"):
+                    n += 1
+                    rid = REQ_IDS[n % 2]
+                    msgs = content(bclass, rid, f"fl{n}")
+                    name = [None, "message"][n % 2]
+                    if first < len(FIRST_LINES):
+                        body = sse_body(msgs, name=name, eols=eols, before_name=FIRST_LINES[first] if name else [],
+                                        before_data=FIRST_LINES[first] if not name else [])
+                    else:
+                        body = sse_body(msgs, name=name, eols=eols)
+                        lead = [bare_event(None), bare_event("ping"), bare_event(None, after=[{"c": "ka"}]), raw_event("keepalive", "ping")][first - len(FIRST_LINES)]
+                        body["events"].insert(0, lead)
+                        if first == len(FIRST_LINES):
+                            body["events"].insert(0, bare_event(None))     # two blank lines
+                    c = mkcase([mkreq(rid, response_b([200, 202][n % 2], ct, body))])
+                    c["hk"] = "sse-first-line/" + ct
+                    out.append(c)
+    return out
+
+
+TYPE_VALUES = [None, True, False, 0, 7, 7.0, 7.5, "", "7", [], [7], {}, {"a": 1}]
+
+
+def type_odd_bodies(rid, tag):
+    """JSON objects that look like JSON-RPC messages with a member of every JSON type in every position.
+    Returns [(label, object, own_terminal)]: own_terminal = the object is a response to `rid` with a well-typed id
+    and a result/error member at all (then the request must end with exactly one terminal, delivered or made up)."""
+    own = idval(rid) if rid is not None else 1
+    out = []
+    for v in TYPE_VALUES:
+        out.append((f"id={type(v).__name__}", {"jsonrpc": "2.0", "id": v, "result": {"tag": tag}}, False))
+        out.append((f"result={type(v).__name__}", {"jsonrpc": "2.0", "id": own, "result": v, "tag": tag}, rid is not None))
+        out.append((f"error={type(v).__name__}", {"jsonrpc": "2.0", "id": own, "error": v, "tag": tag}, rid is not None))
+        out.append((f"code={type(v).__name__}", {"jsonrpc": "2.0", "id": own, "error": {"code": v, "message": "m", "data": {"tag": tag}}}, rid is not None))
+        out.append((f"message={type(v).__name__}", {"jsonrpc": "2.0", "id": own, "error": {"code": 1, "message": v, "data": {"tag": tag}}}, rid is not None))
+        out.append((f"method={type(v).__name__}", {"jsonrpc": "2.0", "method": v, "params": {"tag": tag}}, False))
+        out.append((f"params={type(v).__name__}", {"jsonrpc": "2.0", "method": "notifications/message", "params": v, "tag": tag}, False))
+        out.append((f"jsonrpc={type(v).__name__}", {"jsonrpc": v, "id": own, "result": {"tag": tag}}, False))
+    out.append(("id=missing", {"jsonrpc": "2.0", "result": {"tag": tag}}, False))
+    out.append(("jsonrpc=missing", {"id": own, "result": {"tag": tag}}, rid is not None))
+    out.append(("both", {"jsonrpc": "2.0", "id": own, "result": {"tag": tag}, "error": {"code": 1, "message": "m"}}, False))
+    return out
+
+
+SYNTAX_TEXT = ["[NaN]", ":Infinity,", "values=[1.0, NaN]", "data:", "data: {}", "event: message", "id: 7", "retry: 10", ":", ": comment",
+               "{\"jsonrpc\":\"2.0\",\"id\":7,\"result\":{}}", "{}", "[]", "null", "\\n\\ndata: x\\n\\n", "-Infinity", "NaN", "\"", "\\u0000"]
+
+
+def syntax_cases():
+    """text that looks like the syntax being parsed: as keys and values of payloads (JSON and SSE), and as the whole body"""
+    out = []
+    n = 0
+    for t in SYNTAX_TEXT:
+        for form, ct in (("json", "json"), ("sse", "sse"), ("sse", "absent")):
+            n += 1
+            rid = REQ_IDS[n % 2]
+            r = result(rid, f"sy{n}")
+            r["result"][t] = t
+            r["result"]["nested"] = {"k": [t, {t: dumps({"jsonrpc": "2.0", "id": idval(rid), "result": {}})}]}
+            nt = notif(f"sy{n}-n", t)
+            nt["params"][t or "k"] = [t]
+            body = body_for(form, [nt, r]) if form == "json" else sse_body([nt, r], name=[None, "message"][n % 2], split=bool(n % 3 == 0))
+            c = mkcase([mkreq(rid, response_b(200, ct, body))])
+            c["hk"] = "syntax/in-payload"
+            out.append(c)
+        # as the whole body (raw text, unescaped), under every label and on an error status
+        raw = t.replace("\\n", "\n").replace("\\u0000", "\x00")
+        for status, ct in ((200, "json"), (200, "sse"), (200, "other"), (202, "absent"), (500, "json")):
+            n += 1
+            rid = REQ_IDS[n % 4]
+            # a body without any JSON object in it cannot carry a message: exactly one terminal; with one, the
+            # reading is the code's (a message for another id, an object the message class takes as empty, ...)
+            c = mkcase([mkreq(rid, response_b(status, ct, {"form": "rawtext", "text": raw,
+                                                           "own_terminal": rid is not None and "{" not in raw}))])
+            c["hk"] = "syntax/as-body"
+            out.append(c)
+    # bare NaN / Infinity tokens inside an otherwise well-formed response (some JSON decoders accept them)
+    for tok in ("NaN", "Infinity", "-Infinity"):
+        for ct in ("json", "other", "sse"):
+            n += 1
+            rid = REQ_IDS[n % 2]
+            text = dumps(result(rid, f"sy{n}")).replace('"tag"', f'"v":{tok},"tag"')
+            if ct == "sse":
+                text = f"data: {text}\n\n"
+            c = mkcase([mkreq(rid, response_b(200, ct, {"form": "rawtext", "text": text, "own_terminal": rid is not None}))])
+            c["hk"] = "syntax/bare-nan"
+            out.append(c)
+    return out
+
+
+def hardening2(rng, budget):
+    quick = budget == "quick"
+    out = []
+    out += repeated_failures(quick)
+    out += sse_first_lines()
+    out += syntax_cases()
+    n = 0
+    # E: type classes in every position of a server message, JSON and SSE, accepted and error statuses
+    for rid in (REQ_IDS[0], REQ_IDS[1], None):
+        for label, obj, own in type_odd_bodies(rid, "ty"):
+            for form, ct, status in (("json", "json", 200), ("sse", "sse", 200), ("json", "json", 404)):
+                n += 1
+                if quick and rid is not REQ_IDS[0] and n % 3:
+                    continue
+                tag = f"ty{n}"
+                o = json.loads(json.dumps(obj).replace('"ty"', json.dumps(tag)))
+                body = {"form": "odd", "v": o, "sse": form == "sse", "own_terminal": own, "tag": tag}
+                c = mkcase([mkreq(rid, response_b(status, ct, body))])
+                c["hk"] = "type-classes/" + label.split("=")[0]
+                out.append(c)
+    # F: every exception class, single and followed by a good request
+    for name, f in failure_behaviours().items():
+        if not name.startswith("exc:"):
+            continue
+        for rid in (REQ_IDS[0], None, REQ_IDS[2]):
+            n += 1
+            c = mkcase([mkreq(rid, f(rid, f"ex{n}")), mkreq({"i": 901}, good_behaviours()[n % 4]({"i": 901}, f"ex{n}g"))])
+            c["hk"] = "exception-classes"
+            out.append(c)
+    # B: two and three transports alive at once, the same scenario (equal ids) on each, answers interleaved by latency
+    words = [(0, 5, 12), (4, 18, 2), (13, 1, 3), (5, 5), (22, 23, 0), (12, 5)]
+    for k, w in enumerate(words if quick else words * 6):
+        c = sequence(w, rot=k % 6, session0=[None, "sess-0"][k % 2])
+        for j, r in enumerate(c["reqs"]):
+            r["b"]["lat"] = [0, 3, 1, 2][(j + k) % 4]
+        c["instances"] = 2 + k % 2
+        c["hk"] = f"instances/{c['instances']}"
+        out.append(c)
+    return decorate(out, salt=1)
